@@ -7,9 +7,9 @@ from ..common import Outcome, Violation, drive, seed
 
 PID = 'C17'
 RULE = ('(1) bounded-exhaustive: every length sequence over {1,2,3,5,8,13} up to length L (quick 3, thorough 5) x '
-        'batch_size 1..3 x padding rate {0,.2,.5,.9} x expiration {None,1,2,3} x max_buffered {None,1,2,4} x '
+        'batch_size 1..3 x padding rate {0,.2,.5,.9} x expiration {None,0,1,2,3} x max_buffered {None,1,2,4} x '
         'max_total_size {None,4,10} x sort on/off, each in both drop modes; (2) Hypothesis: random sequences up to '
-        'length 40 and the full parameter ranges of the statement. Oracle: validity predicates over the emitted '
+        'length 40 (integer and fractional lengths) and the full parameter ranges of the statement. Oracle: validity predicates over the emitted '
         'batches and the pull log of an instrumented source + the drop/no-drop metamorphic relation. Non-trivial: '
         '>=2 buckets open at some moment and at least one of expiry / overflow / completion fired; distinct by '
         '(sequence, parameters).')
@@ -22,7 +22,7 @@ ASSUMPTIONS = [
 ALPHABET = [1, 2, 3, 5, 8, 13]
 L = {'quick': 3, 'thorough': 5}
 N_RANDOM = {'quick': 1500, 'thorough': 10000}
-GRID = list(itertools.product([1, 2, 3], [0, .2, .5, .9], [None, 1, 2, 3], [None, 1, 2, 4], [None, 4, 10],
+GRID = list(itertools.product([1, 2, 3], [0, .2, .5, .9], [None, 0, 1, 2, 3], [None, 1, 2, 4], [None, 4, 10],
                               [False, True]))
 
 
@@ -220,11 +220,12 @@ def params_of(t):
 
 @st.composite
 def st_case(draw):
-    seq = draw(st.lists(st.sampled_from(ALPHABET + [4, 7, 20]), min_size=0, max_size=40))
+    # lengths are scalars, not necessarily integers (durations in seconds)
+    seq = draw(st.lists(st.sampled_from(ALPHABET + [4, 7, 20, 4.75, 2.5, 0.5, 9.99]), min_size=0, max_size=40))
     p = {
         'batch_size': draw(st.integers(1, 4)),
         'rate': draw(st.sampled_from([0, .2, .5, .9])),
-        'expiration': draw(st.sampled_from([None, 1, 2, 3, 4, 5])),
+        'expiration': draw(st.sampled_from([None, 0, 1, 2, 3, 4, 5])),
         'mbe': draw(st.sampled_from([None, 1, 2, 3, 4, 5])),
         'mts': draw(st.sampled_from([None, 4, 10, 16])),
         'sort': draw(st.booleans()),
